@@ -98,7 +98,8 @@ def inventory(tree):
               and isinstance(st.targets[0], (ast.Tuple, ast.List)) and isinstance(st.value, (ast.Tuple, ast.List))]
         if ts:
             tuple_assigns[q] = ts
-    return {"reflection": _reflection_count(tree), "tuple_assigns": tuple_assigns,
+    from . import subset
+    return {"reflection": _reflection_count(tree), "tuple_assigns": tuple_assigns, "census": subset.census(tree),
             "functions": sorted(set(funcs)), "globals": sorted(set(globs)), "literal_loops": loops, "private_params": params,
             "call_positional": call_pos, "call_keywords": {k: sorted(v) for k, v in call_kw.items()}, "literal_comps": comps, "dict_comps": dict_comps}
 
